@@ -147,6 +147,33 @@ def process(ctx: Ctx, cases: list[dict]) -> None:
                     ctx.violation("number not in Python's shortest form", c, t, repr(v))
 
 
+_LOOK = None
+
+
+def _lookalikes() -> set:
+    global _LOOK
+    if _LOOK is not None:
+        return _LOOK
+    import unicodedata
+    words = ["true", "false", "on", "off", "none", "null"]
+    out = set()
+    for cp in range(0x80, 0x110000):
+        if 0xD800 <= cp <= 0xDFFF:
+            continue
+        ch = chr(cp)
+        forms = {ch.lower(), ch.casefold(), ch.upper().lower(), unicodedata.normalize("NFKD", ch).lower(), unicodedata.normalize("NFKC", ch).casefold()}
+        for f in forms:
+            if 1 <= len(f) <= 3 and f.isascii() and f.isalpha():
+                for w in words:
+                    for W in (w, w.upper(), w.capitalize()):
+                        i = W.lower().find(f)
+                        while i >= 0:
+                            out.add(W[:i] + ch + W[i + len(f):])
+                            i = W.lower().find(f, i + 1)
+    _LOOK = out
+    return out
+
+
 def _strings_upto(alpha, n):
     for k in range(n + 1):
         for t in itertools.product(alpha, repeat=k):
@@ -193,6 +220,12 @@ def run(ctx: Ctx) -> None:
             cases.append({"kind": "key", "s": s})
         if rng.random() < 0.1:
             cases.append({"kind": "unq", "s": s})
+    # look-alikes of the six words: every character whose lower / upper / casefold / compatibility form is made of ASCII
+    # letters, put in place of those letters (ſ for s, ﬀ for ff, K (Kelvin) for k, fullwidth letters, …)
+    for s_ in sorted(_lookalikes()):
+        cases.append({"kind": "parse", "s": s_})
+        if rng.random() < 0.2:
+            cases.append({"kind": "parse", "s": " " + s_ + " "})
     # the six words with one character substituted by a character that lower-cases into ASCII
     if ctx.tier == "thorough":
         for w in ["true", "false", "on", "off", "none", "null"]:
